@@ -523,6 +523,10 @@ type Tuple struct {
 type compoundKind struct {
 	fields []*numKind // 1..4 numeric fields (may be 0 when hasStr)
 	hasStr bool
+	// asym: the codec's two results differ - the first is the key in a plain, not order-preserving
+	// form (as the library's own collation codec returns the original string first), the second the
+	// binary-comparable form. The tree must work with the second throughout.
+	asym bool
 }
 
 func (k *compoundKind) Name() string {
@@ -532,6 +536,9 @@ func (k *compoundKind) Name() string {
 	}
 	if k.hasStr {
 		parts = append(parts, "str")
+	}
+	if k.asym {
+		parts = append(parts, "asym")
 	}
 	return "cmp:" + strings.Join(parts, ",")
 }
@@ -711,6 +718,13 @@ func (c tupleCodec) Transform(t Tuple) ([]byte, []byte) {
 		b = append(b, s...)
 		b = append(b, 0)
 	}
+	if c.k.asym {
+		plain := []byte{0xEE}
+		for i := len(b) - 1; i >= 0; i-- {
+			plain = append(plain, b[i]^0x5A)
+		}
+		return plain, b
+	}
 	if len(b)%2 == 1 {
 		return clone(b), b // equal content in two distinct slices: a codec need not return one slice twice
 	}
@@ -751,6 +765,10 @@ func ParseKind(spec string) (Kind, error) {
 		for _, f := range strings.Split(strings.TrimPrefix(spec, "cmp:"), ",") {
 			if f == "str" {
 				k.hasStr = true
+				continue
+			}
+			if f == "asym" {
+				k.asym = true
 				continue
 			}
 			nk, ok := numKinds[f]
